@@ -12,7 +12,8 @@
    infection ordinal k; [rule_calls txs] lists one call (target, ordinal) per entry of a
    transmission list, in its order. *)
 From Coq Require Import String.
-From EoNV Require Import Prelude Samp Graph EventSIS FlagIndep C18xSim C18sFlag C18sCalls.
+From EoNV Require Import Prelude Samp Graph EventSIS FlagIndep C18xSim C18sFlag C18sCalls C18sOrder.
+From Coq Require Import Permutation.
 Require EoNV.Model.HashIter EoNV.Gen.HashIter.
 
 (* --- fast_SIS: for EVERY draw script the two modes make the same calls to the random source
@@ -118,6 +119,34 @@ Theorem C18s_loops_reachable_from_the_SIS_simulators :
 Proof. vm_compute. repeat split; reflexivity. Qed.
 Close Scope string_scope.
 
+(* --- `for u in initial_infecteds` in fast_nonMarkov_SIS (rule tables).  Whenever the plain
+   reference run of C13 from the list i0 is inside its domain (second component true: all
+   event times distinct -- computed by the run itself), the simulator started from ANY
+   permutation of i0 returns the same arrays and the same node histories; transmissions() has
+   the same sourced entries in the same order and differs only by a permutation (of its
+   leading source-less entries).  So the order is an input only through ties and through the
+   order of those leading entries -- both exhibited below. *)
+Theorem C18s_fast_nonMarkov_SIS_initial_order_irrelevant_without_ties :
+  forall g dur delays tmax tmin full fuel i0 i0' out, Permutation i0 i0' ->
+  xlt tmin tmax = true -> ref_sis g dur delays tmax tmin full fuel i0 = Ok (out, true) ->
+  exists out',
+    nm_run g dur delays tmax tmin full (length i0 + fuel) i0 = Ok out /\
+    nm_run g dur delays tmax tmin full (length i0 + fuel) i0' = Ok out' /\
+    so_rows out' = so_rows out /\
+    match so_full out, so_full out' with
+    | Some fd, Some fd' => fd_hist fd' = fd_hist fd /\ srcd (fd_trans fd') = srcd (fd_trans fd) /\ Permutation (fd_trans fd') (fd_trans fd)
+    | None, None => True
+    | _, _ => False
+    end.
+Proof. exact nmsis_initial_order. Qed.
+
+(* ... and the reference semantics itself: the permuted run is inside its domain too *)
+Theorem C18s_reference_semantics_initial_order :
+  forall g dur delays tmax tmin full fuel i0 i0' out, Permutation i0 i0' ->
+  ref_sis g dur delays tmax tmin full fuel i0 = Ok (out, true) ->
+  exists out', ref_sis g dur delays tmax tmin full fuel i0' = Ok (out', true) /\ out_perm_rel out out'.
+Proof. exact ref_sis_initial_order. Qed.
+
 (* ---------------- witnesses and non-vacuity ---------------- *)
 (* `for u in initial_infecteds:` assigns the heap counters, hence the order in which the
    initial nodes are processed and which node receives which draw.  fast_SIS on the graph
@@ -159,6 +188,21 @@ Example C18s_fast_nonMarkov_SIS_initial_infecteds_order_is_an_input :
   trans_of b = [(0, None, 2%N); (0, None, 0%N); (1 # 2, Some 2%N, 1%N)].
 Proof. vm_compute. repeat split. Qed.
 
+(* the hypothesis of the order theorem: false for the tie above, true when the two leaves
+   transmit at different times (then the two orders give the same rows and histories) *)
+Definition durU (u : node) (k : nat) : Q := match u with 0%N => 2 | 1%N => 17#8 | _ => 19#8 end.
+Definition delU (u v : node) (k : nat) : list Q := match u, v with 0%N, 1%N => [1#2] | 2%N, 1%N => [3#4] | 1%N, 0%N => [5#4; 9#4] | _, _ => [] end.
+Definition hist_of_run (r : result simout) : list (node * history) :=
+  match r with Ok o => match so_full o with Some fd => fd_hist fd | None => [] end | Err _ => [] end.
+Example C18s_initial_order_example :
+  match ref_sis gs durT delT (Some 1) 0 true 50 [0;2]%N with Ok (_, ok) => ok = false | Err _ => False end /\
+  match ref_sis gs durU delU (Some 3) 0 true 50 [0;2]%N with Ok (o, ok) => ok = true /\ length (so_rows o) = 6%nat | Err _ => False end /\
+  Permutation [0;2]%N [2;0]%N /\
+  rows_of (nm_run gs durU delU (Some 3) 0 true 52 [0;2]%N) = rows_of (nm_run gs durU delU (Some 3) 0 true 52 [2;0]%N) /\
+  hist_of_run (nm_run gs durU delU (Some 3) 0 true 52 [0;2]%N) = hist_of_run (nm_run gs durU delU (Some 3) 0 true 52 [2;0]%N) /\
+  trans_of (nm_run gs durU delU (Some 3) 0 true 52 [2;0]%N) = [(0, None, 2%N); (0, None, 0%N); (1 # 2, Some 0%N, 1%N); (11 # 4, Some 1%N, 0%N)].
+Proof. split; [vm_compute; reflexivity|]. split; [vm_compute; split; reflexivity|]. split; [apply perm_swap|]. vm_compute. repeat split. Qed.
+
 (* a run (tmin = 5/2) in which draws are made and both modes return *)
 Example C18s_fast_SIS_flag_example :
   let a := exec (fast_SIS gq 1 1 (Some 4) (Some [0]%N) None (5#2) true 50) [3; 1#4; 2; 1; 1] [] in
@@ -182,6 +226,9 @@ Print Assumptions C18s_fast_nonMarkov_SIS_rules_consulted_only_at_logged_calls.
 Print Assumptions C18s_fast_nonMarkov_SIS_calls_to_the_random_source.
 Print Assumptions C18s_flag_relation_read.
 Print Assumptions C18s_loops_reachable_from_the_SIS_simulators.
+Print Assumptions C18s_fast_nonMarkov_SIS_initial_order_irrelevant_without_ties.
+Print Assumptions C18s_reference_semantics_initial_order.
+Print Assumptions C18s_initial_order_example.
 Print Assumptions C18s_fast_SIS_initial_infecteds_order_is_an_input.
 Print Assumptions C18s_fast_nonMarkov_SIS_initial_infecteds_order_is_an_input.
 Print Assumptions C18s_fast_SIS_flag_example.
